@@ -448,7 +448,11 @@ func (root *Root) replaceArgVars(vars map[string]interface{}, v interface{}, at 
 			}
 		}
 	case map[string]interface{}:
-		if it, _ := BaseType(at).(*Input); it != nil {
+		it, _ := at.(*Input)
+		if nn, _ := at.(*NonNull); nn != nil {
+			it, _ = nn.Base.(*Input)
+		}
+		if it != nil {
 			// The literal is part of the parsed request and stays as
 			// written, the values are placed in a new object.
 			obj := make(map[string]interface{}, len(tv))
@@ -463,10 +467,26 @@ func (root *Root) replaceArgVars(vars map[string]interface{}, v interface{}, at 
 			if val, err = it.CoerceIn(obj); err != nil {
 				ea = append(ea, resWarnp(nil, "%s", err))
 			}
+		} else if ic, _ := at.(InCoercer); ic != nil {
+			// Not an input object type, the type says what is wrong.
+			if val, err = ic.CoerceIn(val); err != nil {
+				ea = append(ea, resWarnp(nil, "%s", err))
+			}
 		}
 	case []interface{}:
+		lt, _ := at.(*List)
+		if nn, _ := at.(*NonNull); nn != nil {
+			lt, _ = nn.Base.(*List)
+		}
+		if ic, _ := at.(InCoercer); ic != nil && lt == nil {
+			// Not a list type, the type says what is wrong.
+			if val, err = ic.CoerceIn(val); err != nil {
+				ea = append(ea, resWarnp(nil, "%s", err))
+			}
+			break
+		}
 		var mt Type
-		if lt, _ := at.(*List); lt != nil {
+		if lt != nil {
 			mt = lt.Base
 		}
 		list := make([]interface{}, len(tv))
@@ -480,6 +500,11 @@ func (root *Root) replaceArgVars(vars map[string]interface{}, v interface{}, at 
 		if et, _ := bt.(*Enum); et != nil {
 			if _, has := et.values.dict[string(tv)]; !has {
 				ea = append(ea, resWarnp(nil, "%s is not a valid enum value in %s", tv, et.N))
+			}
+		} else if ic, _ := at.(InCoercer); ic != nil {
+			// Not an enum type, the type says what is wrong.
+			if val, err = ic.CoerceIn(val); err != nil {
+				ea = append(ea, resWarnp(nil, "%s", err))
 			}
 		}
 	default:
